@@ -124,8 +124,8 @@ def e1_oracle(rec, table=None):
             break
         if m.get("stored_ok") is False:
             viol.append({"key": "run:stored-value-not-returned-value",
-                         "what": f"real run: update #{i} stored values/point that are not those returned by the "
-                                 f"last evaluation"})
+                         "what": f"real run: {m['op']} #{i} stored values/points that are not those of the "
+                                 f"evaluation(s) that produced them"})
             break
     return viol
 
